@@ -69,6 +69,29 @@ func (s *boltState) find(name string) (int, bool) {
 	return len(s.buckets), false
 }
 
+// Bytes handed out inside a transaction (values returned by Get and cursors,
+// and []byte fields decoded from them without copying) point into the
+// database's memory map and are only valid until the transaction ends. The
+// model invalidates them then: code that keeps them sees garbage, as it can
+// with the real database once pages are reused.
+var (
+	boltOpenTxs int
+	boltAliased [][]byte
+)
+
+func boltEndTx() {
+	boltOpenTxs--
+	if boltOpenTxs > 0 {
+		return
+	}
+	for _, s := range boltAliased {
+		for i := range s {
+			s[i] = 0xDD
+		}
+	}
+	boltAliased = nil
+}
+
 func BoltUpdate(db *bolt.DB, fn func(*bolt.Tx) error) error {
 	st := boltDBs[db]
 	if st == nil {
@@ -77,7 +100,9 @@ func BoltUpdate(db *bolt.DB, fn func(*bolt.Tx) error) error {
 	tx := new(bolt.Tx)
 	m := &boltTx{db: db, st: st.clone(), writable: true}
 	boltTxs[tx] = m
+	boltOpenTxs++
 	err := fn(tx)
+	boltEndTx()
 	delete(boltTxs, tx)
 	if err != nil {
 		return err // rollback: the working copy is dropped
@@ -93,7 +118,9 @@ func BoltView(db *bolt.DB, fn func(*bolt.Tx) error) error {
 	}
 	tx := new(bolt.Tx)
 	boltTxs[tx] = &boltTx{db: db, st: st, writable: false}
+	boltOpenTxs++
 	err := fn(tx)
+	boltEndTx()
 	delete(boltTxs, tx)
 	return err
 }
